@@ -53,6 +53,16 @@ CLAIMED.update({
    note=MACH_NOTE, technique="Coq proof (ghost call log, induction over op lists) + vm_compute correspondence", ref="DESIGN.md section 3, C18"),
 })
 
+CLAIMED['C15'] = dict(
+   text="Theorems about the Gallina model of BaseProposal._call_jump / jump / logpdf / update and JointProposal: with jump interval k>1 and "
+        "duration D a proposal jumps exactly on iterations 1, k+1, 2k+1, ... while fewer than D proposal steps have elapsed and on every "
+        "iteration afterwards (adaptive ones count from start_step); on the other iterations the proposed point keeps its parameters, it "
+        "contributes no density term and is not adapted; clocks advance by one per iteration whatever happens and constituents do not "
+        "influence each other. Every (k, D, start_step, _nsteps, decision) observed on real chains of 16 proposal families - one iteration at a "
+        "time, across clear and pickle-resume into a fresh sampler - is re-evaluated by the model under vm_compute.",
+   note=COMMON_NOTE + "Whether a constituent jumped/was adapted/contributed a density is observed by wrapping its methods on live instances.",
+   technique="Coq proof (arithmetic of the clock, induction over iterations) + vm_compute correspondence", ref="DESIGN.md section 3, C15")
+
 PENDING_REASON = "not yet claimed: model/theorems for this property are still being built (see DESIGN.md section 3); nothing is asserted about it"
 
 def main():
